@@ -209,7 +209,7 @@ theorem mrebalanceTail_ids (T d : Nat) : ∀ (X R : List (MTree r d)),
 
 /-! ### the next level -/
 
-theorem storeAll_ctr (d : Nat) (X : List (MTree r d)) (c : Ctx) :
+theorem mstoreAll_ctr (d : Nat) (X : List (MTree r d)) (c : Ctx) :
     (MBatch.storeAll d X c).ctr = c.ctr ∧ (MBatch.storeAll d X c).created = c.created := by
   unfold MBatch.storeAll
   induction X generalizing c with
@@ -359,7 +359,7 @@ theorem mlevels_ids (T addr ty count seed c0 : Nat) (extra : List SlabID) :
         exact ⟨l ++ extra, List.Perm.append_right _ hp, List.Sublist.append hs (List.Sublist.refl _)⟩
       · rename_i slabs' _ _ hR
         have hsub := mrebalanceTail_ids T d _ _ hR
-        obtain ⟨s1, s2⟩ := storeAll_ctr d slabs' c
+        obtain ⟨s1, s2⟩ := mstoreAll_ctr d slabs' c
         obtain ⟨news, n1, n2, n3⟩ := mnextLevel_ids T addr d slabs' (MBatch.storeAll d slabs' c)
         rw [s1] at n2
         have hF1 : FreshIds addr c0 c.ctr (lvlIds d slabs' ++ extra) := by
